@@ -145,4 +145,188 @@ theorem bmFold_inv : ∀ (ts seen : List Nat) (bm : List Nat) (tot : Nat), (∀ 
       | none => simp at hg
       | some x => rfl
 
+/-! ### reading the bitmap back -/
+
+/-- types named by byte `i` of a window-0 bitmap, given which bits are set -/
+def blk (f : Nat → Nat → Bool) (i : Nat) : List Nat :=
+  (List.range 8).filterMap (fun bit => if f i bit then some (bit + 0 * 256 + i * 8) else none)
+
+theorem mem_blk (f : Nat → Nat → Bool) (i x : Nat) : x ∈ blk f i ↔ ∃ bit, bit < 8 ∧ f i bit = true ∧ x = bit + i * 8 := by
+  simp only [blk, List.mem_filterMap, List.mem_range]
+  constructor
+  · rintro ⟨b, hb, h⟩
+    split at h
+    · rename_i hf; simp at h; exact ⟨b, hb, hf, by omega⟩
+    · simp at h
+  · rintro ⟨b, hb, hf, rfl⟩
+    exact ⟨b, hb, by simp [hf]⟩
+
+theorem blk_sorted (f : Nat → Nat → Bool) (i : Nat) : (blk f i).Pairwise (· < ·) := by
+  unfold blk
+  apply List.Pairwise.filterMap _ _ List.pairwise_lt_range
+  intro a a' haa b hb b' hb'
+  split at hb <;> split at hb' <;> simp at hb hb'
+  omega
+
+theorem flat_sorted (f : Nat → Nat → Bool) : ∀ n, ((List.range n).flatMap (blk f)).Pairwise (· < ·) ∧
+    ∀ x ∈ (List.range n).flatMap (blk f), x < 8 * n := by
+  intro n
+  induction n with
+  | zero => simp
+  | succ n ih =>
+    rw [List.range_succ, List.flatMap_append]
+    simp only [List.flatMap_cons, List.flatMap_nil, List.append_nil]
+    refine ⟨?_, ?_⟩
+    · rw [List.pairwise_append]
+      refine ⟨ih.1, blk_sorted f n, ?_⟩
+      intro a ha b hb
+      have := ih.2 a ha
+      obtain ⟨bit, _, _, rfl⟩ := (mem_blk f n b).mp hb
+      omega
+    · intro x hx
+      simp only [List.mem_append] at hx
+      rcases hx with hx | hx
+      · have := ih.2 x hx; omega
+      · obtain ⟨bit, hb, _, rfl⟩ := (mem_blk f n x).mp hx
+        omega
+
+theorem mem_flat (f : Nat → Nat → Bool) (n x : Nat) :
+    x ∈ (List.range n).flatMap (blk f) ↔ x / 8 < n ∧ f (x / 8) (x % 8) = true := by
+  simp only [List.mem_flatMap, List.mem_range, mem_blk]
+  constructor
+  · rintro ⟨i, hi, bit, hb, hf, rfl⟩
+    have h1 : (bit + i * 8) / 8 = i := by omega
+    have h2 : (bit + i * 8) % 8 = bit := by omega
+    rw [h1, h2]; exact ⟨hi, hf⟩
+  · rintro ⟨h1, h2⟩
+    exact ⟨x / 8, h1, x % 8, Nat.mod_lt _ (by omega), h2, by omega⟩
+
+/-- `bitmapTypes 0` as the flat enumeration above -/
+theorem bitmapTypes_eq (bm : Bytes) :
+    bitmapTypes 0 bm = (List.range bm.length).flatMap (blk (fun i bit => decide ((bm.getD i 0).toNat / 2 ^ (7 - bit) % 2 = 1))) := by
+  unfold bitmapTypes blk
+  simp
+
+theorem getD_take_map (bm : List Nat) (k i : Nat) (hik : i < k) (hlt : bm.getD i 0 < 256) :
+    (((bm.take k).map Nat.toUInt8).getD i 0).toNat = bm.getD i 0 := by
+  rw [List.getD_eq_getElem?_getD, List.getElem?_map, List.getElem?_take_of_lt hik]
+  rw [List.getD_eq_getElem?_getD] at hlt ⊢
+  cases hg : bm[i]? with
+  | none => simp
+  | some v =>
+    simp only [hg, Option.getD_some] at hlt
+    simp only [Option.map_some, Option.getD_some]
+    exact toUInt8_toNat_lt _ hlt
+
+/-- **NSEC bitmap round trip**: for a non-empty, strictly increasing list of window-0 types, the
+encoder produces 1..32 bytes which decode to the same list -/
+theorem nsecBitmap_spec (ts : List Nat) (hwf : WFTypes ts) :
+    ∃ bm, nsecBitmap ts = .ok bm ∧ 1 ≤ bm.length ∧ bm.length ≤ 32 ∧ bitmapTypes 0 bm = ts := by
+  obtain ⟨hne, hsorted, hle⟩ := hwf
+  obtain ⟨inv, htot⟩ := bmFold_inv ts [] (List.replicate 32 0) 0 hle BmInv.init
+  obtain ⟨last, hlast⟩ : ∃ t, ts.getLast? = some t := by
+    cases h : ts.getLast? with
+    | none => simp at h; exact absurd h hne
+    | some t => exact ⟨t, rfl⟩
+  have hlastmem : last ∈ ts := List.mem_of_getLast? hlast
+  have hmax : ∀ t ∈ ts, t ≤ last := by
+    intro t ht
+    rw [List.getLast?_eq_some_iff] at hlast
+    obtain ⟨ys, rfl⟩ := hlast
+    simp only [List.mem_append, List.mem_singleton] at ht
+    rcases ht with ht | rfl
+    · rw [List.pairwise_append] at hsorted
+      exact Nat.le_of_lt (hsorted.2.2 t ht last (by simp))
+    · exact Nat.le_refl _
+  rw [hlast] at htot
+  simp only [List.nil_append] at inv
+  have hfo := nsecFold_ok ts (List.replicate 32 0, 0) hle
+  cases hfold : ts.foldl bmStep (List.replicate 32 0, 0) with
+  | mk bmN tot =>
+  rw [hfold] at inv htot hfo
+  simp only at inv htot
+  obtain ⟨hl32, hlt, hbits⟩ := inv
+  have hl255 := hle last hlastmem
+  have htotle : last / 8 + 1 ≤ 32 := by omega
+  have hlen : ((bmN.take (last / 8 + 1)).map Nat.toUInt8).length = last / 8 + 1 := by
+    rw [List.length_map, List.length_take, hl32]; omega
+  refine ⟨(bmN.take (last / 8 + 1)).map Nat.toUInt8, ?_, by omega, by omega, ?_⟩
+  · unfold nsecBitmap
+    rw [hfo, htot]
+    simp
+  · apply sorted_ext _ _ _ hsorted
+    · intro x
+      rw [bitmapTypes_eq, mem_flat, hlen]
+      constructor
+      · rintro ⟨h1, h2⟩
+        have hi : x / 8 < 32 := by omega
+        have hb : x % 8 < 8 := Nat.mod_lt _ (by omega)
+        simp only [decide_eq_true_eq] at h2
+        rw [getD_take_map bmN _ _ h1 (hlt _ hi)] at h2
+        have := (hbits (x / 8) (x % 8) hi hb).mp (by rw [Nat.testBit_eq_decide_div_mod_eq]; simpa using h2)
+        rwa [show 8 * (x / 8) + x % 8 = x by omega] at this
+      · intro hx
+        have hxl := hmax x hx
+        have hi : x / 8 < 32 := by have := hle x hx; omega
+        have hb : x % 8 < 8 := Nat.mod_lt _ (by omega)
+        have h1 : x / 8 < last / 8 + 1 := by omega
+        refine ⟨h1, ?_⟩
+        simp only [decide_eq_true_eq]
+        rw [getD_take_map bmN _ _ h1 (hlt _ hi)]
+        have := (hbits (x / 8) (x % 8) hi hb).mpr (by rwa [show 8 * (x / 8) + x % 8 = x by omega])
+        rw [Nat.testBit_eq_decide_div_mod_eq] at this
+        simpa using this
+    · rw [bitmapTypes_eq]
+      exact (flat_sorted _ _).1
+
+theorem windows_one (a bm tail : Bytes) (fuel : Nat) (hf : 2 ≤ fuel) (h1 : 1 ≤ bm.length) (h32 : bm.length ≤ 32) :
+    windows (a ++ ((0 : UInt8) :: bm.length.toUInt8 :: (bm ++ tail))) fuel a.length (a.length + 2 + bm.length)
+      = some (bitmapTypes 0 bm) := by
+  obtain ⟨f, rfl⟩ : ∃ f, fuel = f + 2 := ⟨fuel - 2, by omega⟩
+  have u0 : u8At (a ++ ((0 : UInt8) :: bm.length.toUInt8 :: (bm ++ tail))) a.length = some 0 := by
+    have := u8At_of_eq _ a (bm.length.toUInt8 :: (bm ++ tail)) 0 a.length rfl rfl
+    simpa using this
+  have u1 : u8At (a ++ ((0 : UInt8) :: bm.length.toUInt8 :: (bm ++ tail))) (a.length + 1) = some bm.length := by
+    have := u8At_of_eq (a ++ ((0 : UInt8) :: bm.length.toUInt8 :: (bm ++ tail))) (a ++ [0]) (bm ++ tail) bm.length.toUInt8 (a.length + 1)
+      (by simp) (by simp)
+    rw [this, toUInt8_toNat_lt _ (by omega)]
+  have u2 : bytesAt (a ++ ((0 : UInt8) :: bm.length.toUInt8 :: (bm ++ tail))) (a.length + 2) bm.length = some bm :=
+    bytesAt_of_eq _ (a ++ [0, bm.length.toUInt8]) bm tail _ _ (by simp) (by simp) rfl
+  rw [windows]
+  have hne : ¬ a.length = a.length + 2 + bm.length := by omega
+  simp only [hne, if_false, bind, Option.bind, u0, u1, u2, h1, h32, Nat.le_refl, and_self, if_true]
+  rw [windows]
+  simp
+
+theorem encRData_spec_nsec (pre : Bytes) (names names' : Names) (out : Bytes) (n : WName) (ts : List Nat) (rtype : Nat)
+    (h12 : 12 ≤ pre.length) (hg : NamesGood pre names) (hwf : WFRData rtype (.nsec n ts))
+    (hw : encRData pre.length names (.nsec n ts) = .ok (out, names')) (hfin : (pre ++ out).length ≤ 16384) (tail : Bytes) :
+    decRData (pre ++ out ++ tail) rtype pre.length out.length = some (ERData.nsec n ts).onWire ∧ NamesGood (pre ++ out) names' := by
+  obtain ⟨rfl, hn, hts⟩ := hwf
+  obtain ⟨bm, hbm, hb1, hb32, hdec⟩ := nsecBitmap_spec ts hts
+  simp only [encRData, hbm, bind, Except.bind] at hw
+  cases h1 : writeName pre.length names n with
+  | error e => simp [h1] at hw
+  | ok r =>
+    obtain ⟨nb, names1⟩ := r
+    simp only [h1, byteOf_ok 0 (by omega), byteOf_ok bm.length (by omega), pure, Except.pure, Except.ok.injEq, Prod.mk.injEq] at hw
+    obtain ⟨rfl, rfl⟩ := hw
+    have hfin1 : (pre ++ nb).length ≤ 16384 := by simp at hfin ⊢; omega
+    obtain ⟨hd0, hng, _⟩ := writeName_spec pre names names1 nb n h12 hg hn h1 hfin1
+    have ebuf : pre ++ (nb ++ [(0 : Nat).toUInt8] ++ [bm.length.toUInt8] ++ bm) ++ tail
+        = (pre ++ nb) ++ ((0 : UInt8) :: bm.length.toUInt8 :: (bm ++ tail)) := by simp
+    have hd := decName_append ((0 : UInt8) :: bm.length.toUInt8 :: (bm ++ tail)) hd0
+    refine ⟨?_, ?_⟩
+    · rw [ebuf]
+      have hw1 := windows_one (pre ++ nb) bm tail
+        ((nb ++ [(0 : Nat).toUInt8] ++ [bm.length.toUInt8] ++ bm).length + 1) (by simp; omega) hb1 hb32
+      have hend : pre.length + (nb ++ [(0 : Nat).toUInt8] ++ [bm.length.toUInt8] ++ bm).length = (pre ++ nb).length + 2 + bm.length := by
+        simp; omega
+      unfold decRData
+      simp only [hd, hend, hw1, hdec]
+      simp [ERData.onWire]
+      omega
+    · have : pre ++ (nb ++ [(0 : Nat).toUInt8] ++ [bm.length.toUInt8] ++ bm) = (pre ++ nb) ++ ([(0 : Nat).toUInt8] ++ [bm.length.toUInt8] ++ bm) := by simp
+      rw [this]; exact hng.append _
+
 end Zc.Wire.Encode
